@@ -149,6 +149,10 @@ Lemma heap_remove_from_repos models rem s : heap (remove_from_repos models rem s
 Proof. unfold remove_from_repos. revert s. induction models as [|x t IH]; intro s; cbn; [reflexivity|]. rewrite IH. reflexivity. Qed.
 Lemma constr_remove_from_repos models rem s : constr (remove_from_repos models rem s) = constr s.
 Proof. unfold remove_from_repos. revert s. induction models as [|x t IH]; intro s; cbn; [reflexivity|]. rewrite IH. reflexivity. Qed.
+Lemma targets_remove_from_repos models rem s : targets (remove_from_repos models rem s) = targets s.
+Proof. unfold remove_from_repos. revert s. induction models as [|x t IH]; intro s; cbn; [reflexivity|]. rewrite IH. reflexivity. Qed.
+Lemma curop_remove_from_repos models rem s : curop (remove_from_repos models rem s) = curop s.
+Proof. unfold remove_from_repos. revert s. induction models as [|x t IH]; intro s; cbn; [reflexivity|]. rewrite IH. reflexivity. Qed.
 Lemma reads_handler m s : reads (handler m s) = reads s.
 Proof. unfold handler. destruct cleanup_construction_failure; [apply reads_remove_from_repos | reflexivity]. Qed.
 Lemma heap_handler m s : heap (handler m s) = heap s.
@@ -171,11 +175,11 @@ Proof.
 Qed.
 
 
-Lemma cached_load_returns_cached fs c f s m :
+Lemma cached_load_returns_cached_raw fs c f s m :
   cglobal c = true -> dget f (allm s) = Some m ->
-  fst (load_main fs c f s) = inr m /\ reads (snd (load_main fs c f s)) = [] /\ allm (snd (load_main fs c f s)) = allm s.
+  fst (load_main_raw fs c f s) = inr m /\ reads (snd (load_main_raw fs c f s)) = [] /\ allm (snd (load_main_raw fs c f s)) = allm s.
 Proof.
-  intros Hg Hc. unfold load_main, begin_op. rewrite Hg. cbn [allm with_reads].
+  intros Hg Hc. unfold load_main_raw, begin_op. rewrite Hg. cbn [allm with_reads].
   rewrite Hc, src_mp_on_cached. cbn. auto.
 Qed.
 
@@ -185,34 +189,49 @@ Section Once.
   Variable c : cfg.
   Let n := length fs.
 
-  (* the key set of all_models is duplicate free and consists of existing files *)
-  Definition K (s : state) : Prop := NoDup (keys s) /\ (forall k, In k (keys s) -> k < n).
+  (* the key set of all_models is duplicate free; fk counts the registered FILES (keys below |files|; the invented
+     names of string-loaded models are above) *)
+  Definition K (s : state) : Prop := NoDup (keys s).
+  Definition fk (s : state) : nat := length (filter (fun x => Nat.ltb x n) (keys s)).
 
-  Lemma K_length s : K s -> length (keys s) <= n.
+  Lemma filter_lt_incl_seq l : incl (filter (fun x => Nat.ltb x n) l) (seq 0 n).
+  Proof. intros k Hk. apply filter_In in Hk as [_ Hk]. apply Nat.ltb_lt in Hk. apply in_seq. lia. Qed.
+  Lemma K_length s : K s -> fk s <= n.
   Proof.
-    intros [Hnd Hb]. rewrite <- (seq_length n 0). apply NoDup_incl_length; [exact Hnd|].
-    intros k Hk. apply in_seq. specialize (Hb k Hk). lia.
+    intros Hnd. unfold fk.
+    pose proof (NoDup_incl_length (NoDup_filter (fun x => Nat.ltb x n) Hnd) (filter_lt_incl_seq (keys s))) as H.
+    rewrite seq_length in H. exact H.
   Qed.
-  Lemma K_fresh_length s g : K s -> g < n -> ~ In g (keys s) -> length (keys s) + 1 <= n.
+  Lemma K_fresh_length s g : K s -> g < n -> ~ In g (keys s) -> fk s + 1 <= n.
   Proof.
-    intros [Hnd Hb] Hg Hni.
-    assert (H : length (g :: keys s) <= n).
-    { rewrite <- (seq_length n 0). apply NoDup_incl_length; [constructor; assumption|].
-      intros k [Hk|Hk]; apply in_seq; [subst; lia | specialize (Hb k Hk); lia]. }
-    cbn in H. lia.
+    intros Hnd Hg Hni. unfold fk.
+    assert (H : length (g :: filter (fun x => Nat.ltb x n) (keys s)) <= length (seq 0 n)).
+    { apply NoDup_incl_length.
+      - constructor; [intro H; apply filter_In in H; tauto | apply NoDup_filter; exact Hnd].
+      - intros k [Hk|Hk]; [subst; apply in_seq; lia | apply filter_lt_incl_seq in Hk; exact Hk]. }
+    rewrite seq_length in H. cbn [length] in H. lia.
   Qed.
-  Lemma K_dset s g v : K s -> g < n -> K (set_all g v s).
+  Lemma fk_mono s s' : K s -> incl (keys s) (keys s') -> fk s <= fk s'.
   Proof.
-    intros [Hnd Hb] Hg. unfold K. autorewrite with st.
-    destruct (keys_dset_cases g v (allm s)) as [[Hin ->]|[Hni ->]]; [split; assumption|].
-    split; [apply NoDup_snoc; assumption|]. intros k Hk. apply in_app_or in Hk as [Hk|[Hk|[]]]; [auto | subst; exact Hg].
+    intros Hnd Hi. unfold fk. apply NoDup_incl_length; [apply NoDup_filter; exact Hnd|].
+    intros k Hk. apply filter_In in Hk as [Hk1 Hk2]. apply filter_In. split; [apply Hi; exact Hk1 | exact Hk2].
   Qed.
-  Lemma K_update s m mf : K s -> mf < n -> K (update_in_repo m mf s).
-  Proof. intros HK Hm. unfold update_in_repo. destruct (dhas mf (allm s)); [exact HK | apply K_dset; assumption]. Qed.
+  Lemma fk_snoc_file l g : g < n ->
+    length (filter (fun x => Nat.ltb x n) (l ++ [g])) = length (filter (fun x => Nat.ltb x n) l) + 1.
+  Proof.
+    intro Hg. rewrite filter_app, app_length. cbn [filter]. apply Nat.ltb_lt in Hg. rewrite Hg. reflexivity.
+  Qed.
+  Lemma K_dset s g v : K s -> K (set_all g v s).
+  Proof.
+    intros Hnd. unfold K. autorewrite with st.
+    destruct (keys_dset_cases g v (allm s)) as [[Hin ->]|[Hni ->]]; [exact Hnd | apply NoDup_snoc; assumption].
+  Qed.
+  Lemma K_update s m mf : K s -> K (update_in_repo m mf s).
+  Proof. intros HK. unfold update_in_repo. destruct (dhas mf (allm s)); [exact HK | apply K_dset; assumption]. Qed.
 
   (* specification of a loader for imported files, at a given fuel *)
   Definition loader_ok (k : nat) (ld : nat -> state -> (err + nat) * state) : Prop :=
-    forall g s, K s -> ~ In g (keys s) -> n + 1 <= k + length (keys s) ->
+    forall g s, K s -> ~ In g (keys s) -> n + 1 <= k + fk s ->
       NoDup (reads s) -> incl (reads s) (keys s) ->
       fst (ld g s) <> inl EFuel /\ NoDup (reads (snd (ld g s))) /\
       (forall m, fst (ld g s) = inr m ->
@@ -220,7 +239,7 @@ Section Once.
          incl (reads (snd (ld g s))) (keys (snd (ld g s)))).
 
   Lemma load_model_once k ld m g s r s' :
-    loader_ok k ld -> K s -> n + 1 <= k + length (keys s) -> NoDup (reads s) -> incl (reads s) (keys s) ->
+    loader_ok k ld -> K s -> n + 1 <= k + fk s -> NoDup (reads s) -> incl (reads s) (keys s) ->
     load_model ld m g s = (r, s') ->
     r <> Some EFuel /\ NoDup (reads s') /\
     (r = None -> K s' /\ incl (keys s) (keys s') /\ incl (reads s') (keys s')).
@@ -242,7 +261,7 @@ Section Once.
   Qed.
 
   Lemma load_files_once k ld m gs : forall s r s',
-    loader_ok k ld -> K s -> n + 1 <= k + length (keys s) -> NoDup (reads s) -> incl (reads s) (keys s) ->
+    loader_ok k ld -> K s -> n + 1 <= k + fk s -> NoDup (reads s) -> incl (reads s) (keys s) ->
     load_files ld m gs s = (r, s') ->
     r <> Some EFuel /\ NoDup (reads s') /\
     (r = None -> K s' /\ incl (keys s) (keys s') /\ incl (reads s') (keys s')).
@@ -255,24 +274,24 @@ Section Once.
       destruct r1 as [e|].
       + intro H. inversion H; subst. split; [exact Hnf|]. split; [exact Hnd1 | discriminate].
       + destruct (Hok eq_refl) as [HK1 [Hi1 Hr1]]. intro H.
-        assert (Hlen : length (keys s) <= length (keys s1)) by (apply NoDup_incl_length; [destruct HK; assumption | exact Hi1]).
+        assert (Hlen : fk s <= fk s1) by (apply fk_mono; assumption).
         destruct (IH s1 r s' Hld HK1 ltac:(lia) Hnd1 Hr1 H) as [Hnf2 [Hnd2 Hok2]].
         split; [exact Hnf2|]. split; [exact Hnd2|]. intro Hr. destruct (Hok2 Hr) as [HK2 [Hi2 Hr2]].
         split; [exact HK2|]. split; [eapply incl_tran; eassumption | exact Hr2].
   Qed.
 
   Lemma load_stmts_once k ld m mf stmts : forall s r s',
-    loader_ok k ld -> K s -> mf < n ->
-    n + 1 <= k + length (keys (update_in_repo m mf s)) ->
+    loader_ok k ld -> K s ->
+    n + 1 <= k + fk (update_in_repo m mf s) ->
     NoDup (reads s) -> (forall x, In x (reads s) -> In x (keys s) \/ x = mf) ->
     load_stmts ld m mf stmts s = (r, s') ->
     r <> Some EFuel /\ NoDup (reads s') /\
     (r = None -> K s' /\ incl (keys s) (keys s') /\ (forall x, In x (reads s') -> In x (keys s') \/ x = mf)).
   Proof.
-    induction stmts as [|gs rest IH]; intros s r s' Hld HK Hmf Hf Hnd Hinc; cbn.
+    induction stmts as [|gs rest IH]; intros s r s' Hld HK Hf Hnd Hinc; cbn.
     - intro H. inversion H; subst. split; [discriminate|]. split; [exact Hnd|]. intros _.
       split; [exact HK|]. split; [apply incl_refl | exact Hinc].
-    - pose proof (K_update s m mf HK Hmf) as HK1.
+    - pose proof (K_update s m mf HK) as HK1.
       destruct (keys_update_in_repo m mf s) as [Hin1 [Hi1 _]].
       assert (Hr1 : incl (reads (update_in_repo m mf s)) (keys (update_in_repo m mf s))).
       { rewrite reads_update_in_repo. intros x Hx. destruct (Hinc x Hx) as [H|H]; [apply Hi1; exact H | subst; exact Hin1]. }
@@ -284,21 +303,19 @@ Section Once.
         destruct r2 as [e|].
         * intro H. inversion H; subst. split; [exact Hnf2|]. split; [exact Hnd2 | discriminate].
         * destruct (Hok2 eq_refl) as [HK2 [Hi2 Hr2]]. intro H.
-          assert (Hlen : length (keys (update_in_repo m mf s)) <= length (keys s2))
-            by (apply NoDup_incl_length; [destruct HK1; assumption | exact Hi2]).
+          assert (Hlen : fk (update_in_repo m mf s) <= fk s2) by (apply fk_mono; assumption).
           assert (Hin2 : In mf (keys s2)) by (apply Hi2; exact Hin1).
-          assert (Hf2 : n + 1 <= k + length (keys (update_in_repo m mf s2))).
+          assert (Hf2 : n + 1 <= k + fk (update_in_repo m mf s2)).
           { destruct (keys_update_in_repo m mf s2) as [_ [Hi3 _]].
-            assert (length (keys s2) <= length (keys (update_in_repo m mf s2)))
-              by (apply NoDup_incl_length; [destruct HK2; assumption | exact Hi3]). lia. }
-          destruct (IH s2 r s' Hld HK2 Hmf Hf2 Hnd2 ltac:(intros x Hx; left; apply Hr2; exact Hx) H) as [Hnf3 [Hnd3 Hok3]].
+            assert (fk s2 <= fk (update_in_repo m mf s2)) by (apply fk_mono; assumption). lia. }
+          destruct (IH s2 r s' Hld HK2 Hf2 Hnd2 ltac:(intros x Hx; left; apply Hr2; exact Hx) H) as [Hnf3 [Hnd3 Hok3]].
           split; [exact Hnf3|]. split; [exact Hnd3|]. intro Hr. destruct (Hok3 Hr) as [HK3 [Hi3 Hr3]].
           split; [exact HK3|]. split; [|exact Hr3]. eapply incl_tran; [exact Hi1|]. eapply incl_tran; eassumption.
   Qed.
 
   (* load_file: the fuel never runs out as long as fuel + |registered files| exceeds the number of files *)
   Lemma load_file_once fuel : forall main g s,
-    K s -> ~ In g (keys s) -> n + 1 <= fuel + length (keys s) ->
+    K s -> ~ In g (keys s) -> n + 1 <= fuel + fk s ->
     NoDup (reads s) -> incl (reads s) (keys s) ->
     fst (load_file fs c fuel main g s) <> inl EFuel /\ NoDup (reads (snd (load_file fs c fuel main g s))) /\
     (forall m, fst (load_file fs c fuel main g s) = inr m ->
@@ -307,8 +324,7 @@ Section Once.
                         incl (reads (snd (load_file fs c fuel main g s))) (keys (snd (load_file fs c fuel main g s))))).
   Proof.
     induction fuel as [|k IH]; intros main g s HK Hg Hf Hnd Hinc.
-    { exfalso. pose proof (K_length s HK). cbn in Hf.
-      (* fuel 0: n + 1 <= |keys| <= n *) lia. }
+    { exfalso. pose proof (K_length s HK). (* fuel 0: n + 1 <= fk <= n *) lia. }
     cbn [load_file].
     destruct (nth_error fs g) as [fc|] eqn:Efc.
     2:{ cbn. split; [discriminate|]. split; [exact Hnd | discriminate]. }
@@ -323,7 +339,7 @@ Section Once.
     set (s2 := alloc g fc s1).
     set (s3 := if (main && negb (cglobal c))%bool then s2 else set_all g mid s2).
     assert (HK3 : K s3).
-    { subst s3. destruct (main && negb (cglobal c))%bool; [exact HK | apply K_dset; [exact HK | exact Hgn]]. }
+    { subst s3. destruct (main && negb (cglobal c))%bool; [exact HK | apply K_dset; exact HK]. }
     assert (Hkeys3 : (keys s3 = keys s /\ (main && negb (cglobal c))%bool = true) \/
                      (keys s3 = keys s ++ [g] /\ (main && negb (cglobal c))%bool = false)).
     { subst s3. destruct (main && negb (cglobal c))%bool; [left; split; reflexivity|]. right. split; [|reflexivity].
@@ -336,15 +352,14 @@ Section Once.
     assert (Hpre3 : forall x, In x (reads s3) -> In x (keys s3) \/ x = g).
     { rewrite Hreads3. intros x Hx. apply in_app_or in Hx as [Hx|[Hx|[]]]; [left|right; auto].
       destruct Hkeys3 as [[-> _]|[-> _]]; [apply Hinc, Hx | apply in_or_app; left; apply Hinc, Hx]. }
-    assert (Hf3 : n + 1 <= k + length (keys (update_in_repo mid g s3))).
+    assert (Hf3 : n + 1 <= k + fk (update_in_repo mid g s3)).
     { destruct (keys_update_in_repo mid g s3) as [Hin [Hi Hc]].
       destruct Hkeys3 as [[E _]|[E _]].
       - destruct Hc as [Hc|[Hni Hc]].
         + exfalso. rewrite Hc, E in Hin. tauto.
-        + rewrite Hc, E, app_length. change (length [g]) with 1. lia.
-      - assert (length (keys s3) <= length (keys (update_in_repo mid g s3)))
-          by (apply NoDup_incl_length; [destruct HK3; assumption | exact Hi]).
-        rewrite E, app_length in H. change (length [g]) with 1 in H. lia. }
+        + unfold fk in *. rewrite Hc, E, fk_snoc_file by exact Hgn. lia.
+      - assert (H : fk s3 <= fk (update_in_repo mid g s3)) by (apply fk_mono; assumption).
+        unfold fk in *. rewrite E, fk_snoc_file in H by exact Hgn. lia. }
     assert (Hnd3 : NoDup (reads s3)) by (rewrite Hreads3; exact Hnd1).
     destruct (if (clazy c && is_nil (frefs fc))%bool then (None, s3)
               else load_stmts (load_file fs c k false) mid g (fimports fc) s3) as [r s4] eqn:E4.
@@ -352,7 +367,7 @@ Section Once.
                    (r = None -> K s4 /\ incl (keys s3) (keys s4) /\ (forall x, In x (reads s4) -> In x (keys s4) \/ x = g))).
     { destruct (clazy c && is_nil (frefs fc))%bool.
       - inversion E4; subst. split; [discriminate|]. split; [exact Hnd3|]. intros _. split; [exact HK3|]. split; [apply incl_refl | exact Hpre3].
-      - exact (load_stmts_once _ _ _ _ _ _ _ _ Hld HK3 Hgn Hf3 Hnd3 Hpre3 E4). }
+      - exact (load_stmts_once _ _ _ _ _ _ _ _ Hld HK3 Hf3 Hnd3 Hpre3 E4). }
     destruct Hres as [Hnf [Hnd4 Hok]].
     destruct r as [e|].
     { cbn [fst snd]. split; [congruence|]. split; [rewrite reads_handler; exact Hnd4 | discriminate]. }
@@ -407,11 +422,11 @@ Proof.
 Qed.
 
 (* C17, first part: a top-level load never runs out of its fuel |files|+1, and opens no file twice. *)
-Theorem load_main_once fs c f s :
-  K fs (begin_op c s) ->
-  fst (load_main fs c f s) <> inl EFuel /\ NoDup (reads (snd (load_main fs c f s))).
+Theorem load_main_once_raw fs c f s :
+  K (begin_op c s) ->
+  fst (load_main_raw fs c f s) <> inl EFuel /\ NoDup (reads (snd (load_main_raw fs c f s))).
 Proof.
-  intro HK. unfold load_main.
+  intro HK. unfold load_main_raw.
   set (s0 := begin_op c s) in *.
   assert (Hr0 : reads s0 = []) by reflexivity.
   destruct (if cglobal c then dget f (allm s0) else None) as [m|] eqn:Ec.
@@ -564,7 +579,10 @@ Section Clean.
     st_old : old s' = old s;
     st_loc : forall x, x < n0 -> local_of x s' = local_of x s;
     st_heap : forall v mi, nth_error (heap s) v = Some mi -> nth_error (heap s') v = Some mi;
-    st_constr : incl (constr s) (constr s') }.
+    st_constr : incl (constr s) (constr s');
+    st_cold : filter (fun x => Nat.ltb x n0) (constr s') = filter (fun x => Nat.ltb x n0) (constr s);
+    st_tgt : targets s' = targets s;
+    st_curop : curop s' = curop s }.
   Definition Pres (s s' : state) : Prop := forall k v, dget k (allm s) = Some v -> dget k (allm s') = Some v.
 
   Lemma local_of_ext s s' x : locals s' = locals s -> local_of x s' = local_of x s.
@@ -580,19 +598,28 @@ Section Clean.
   Proof. intro H. constructor; auto using incl_refl. Qed.
   Lemma Step_trans s s1 s2 : Step s s1 -> Step s1 s2 -> Step s s2.
   Proof.
-    intros [A B C D E] [A' B' C' D' E']. constructor; auto.
+    intros [A B C D E F G H] [A' B' C' D' E' F' G' H']. constructor.
+    - exact A'.
     - congruence.
     - intros x Hx. rewrite C', C; auto.
+    - auto.
     - eapply incl_tran; eassumption.
+    - congruence.
+    - congruence.
+    - congruence.
   Qed.
-  Lemma Step_ext s s1 s2 : Step s s1 -> heap s2 = heap s1 -> allm s2 = allm s1 -> constr s2 = constr s1 -> locals s2 = locals s1 -> Step s s2.
+  Lemma Step_ext s s1 s2 : Step s s1 -> heap s2 = heap s1 -> allm s2 = allm s1 -> constr s2 = constr s1 -> locals s2 = locals s1 ->
+    targets s2 = targets s1 -> curop s2 = curop s1 -> Step s s2.
   Proof.
-    intros [A B C D E] Eh Ea Ec El. constructor.
+    intros [A B C D E F G H] Eh Ea Ec El Et Eo. constructor.
     - eapply Inv_ext; eassumption.
     - unfold old. rewrite Ea. exact B.
     - intros x Hx. rewrite (local_of_ext s1 s2 x El). auto.
     - rewrite Eh. exact D.
     - rewrite Ec. exact E.
+    - rewrite Ec. exact F.
+    - rewrite Et. exact G.
+    - rewrite Eo. exact H.
   Qed.
   Lemma Pres_refl s : Pres s s. Proof. intros k v H; exact H. Qed.
   Lemma Pres_trans s s1 s2 : Pres s s1 -> Pres s1 s2 -> Pres s s2. Proof. intros A B k v H. auto. Qed.
@@ -608,7 +635,7 @@ Section Clean.
       - intros [H|[]]. inversion H. auto.
       - destruct (Nat.eqb g a); cbn; intros [H|H]; auto. inversion H; auto. destruct (IH H); auto. }
     destruct HI as [A B C D E F G H].
-    constructor; [constructor; auto| reflexivity | | auto | apply incl_refl].
+    constructor; [constructor; auto| reflexivity | | auto | apply incl_refl | reflexivity | reflexivity | reflexivity].
     - intros x g' t Hx. rewrite Hloc by lia. apply G. exact Hx.
     - intros x g' t. destruct (Nat.eq_dec x m) as [->|Hne].
       + intro Hin. apply Hlm in Hin as [Hin| ->]; [eapply H; eassumption | split; [exact Hml | exact Hv]].
@@ -621,7 +648,7 @@ Section Clean.
     intros [A B C D E F G H].
     assert (Hh : forall v mi, nth_error (heap s) v = Some mi -> nth_error (heap s ++ [mkMinfo g (curop s) fc]) v = Some mi).
     { intros v mi Hv. rewrite nth_error_app1; [exact Hv | apply nth_error_Some; congruence]. }
-    constructor; [constructor| reflexivity | reflexivity | exact Hh | ]; autorewrite with st.
+    constructor; [constructor| reflexivity | reflexivity | exact Hh | | | reflexivity | reflexivity]; autorewrite with st.
     - rewrite app_length. lia.
     - exact B.
     - exact C.
@@ -631,6 +658,7 @@ Section Clean.
     - exact G.
     - intros x g' t Hin. rewrite app_length. destruct (H x g' t Hin). split; lia.
     - apply incl_tl, incl_refl.
+    - cbn [filter]. replace (Nat.ltb (length (heap s)) n0) with false; [reflexivity|]. symmetry. apply Nat.ltb_ge. exact A.
   Qed.
 
   Lemma old_app s l : (forall kv, In kv l -> is_old kv = false) -> filter is_old (allm s ++ l) = old s.
@@ -714,7 +742,7 @@ Section Clean.
     split; [|exact Ha].
     assert (Hsub : forall kv, In kv (allm (remove_from_repos (included m s) rem s)) -> In kv (allm s) /\ is_old kv = true).
     { intros kv. rewrite Ha. unfold old. intro H. apply filter_In in H. exact H. }
-    constructor; [constructor|..]; rewrite ?heap_remove_from_repos, ?constr_remove_from_repos; auto using incl_refl.
+    constructor; [constructor|..]; rewrite ?heap_remove_from_repos, ?constr_remove_from_repos, ?targets_remove_from_repos, ?curop_remove_from_repos; auto using incl_refl.
     - apply (inv_n0 s HI).
     - rewrite Ha. apply NoDup_map_filter. apply (inv_keys s HI).
     - rewrite Ha. apply NoDup_map_filter. apply (inv_vals s HI).
@@ -759,7 +787,7 @@ Section CleanLoad.
     - intro H. inversion H; subst. split; [exact Hst | discriminate].
     - intro H. inversion H; subst. destruct (Hok m' eq_refl) as [Hp Hg1].
       assert (Hst1 : Step s (set_all g m' s1)).
-      { eapply Step_ext; [exact Hst | reflexivity | apply set_all_same; exact Hg1 | reflexivity | reflexivity]. }
+      { eapply Step_ext; [exact Hst | reflexivity | apply set_all_same; exact Hg1 | reflexivity | reflexivity | reflexivity | reflexivity]. }
       split.
       + eapply Step_trans; [exact Hst1|]. apply Step_set_local; [apply (st_inv _ _ _ Hst1) | exact Hm | |].
         { autorewrite with st. apply nth_error_Some. rewrite (st_heap _ _ _ Hst m mi Hh). discriminate. }
@@ -1030,11 +1058,11 @@ End CleanMain.
 
 (* C18: a failing top-level load restores the repository exactly and leaves a state from which
    loading behaves as specified (Stable is the invariant all C17/C18 theorems assume) *)
-Theorem load_main_failure_clean fs c f s e s' :
-  Stable s -> load_main fs c f s = (inl e, s') ->
+Theorem load_main_failure_clean_raw fs c f s e s' :
+  Stable s -> load_main_raw fs c f s = (inl e, s') ->
   allm s' = allm (begin_op c s) /\ (forall x, x < length (heap s) -> local_of x s' = local_of x s) /\ Stable s'.
 Proof.
-  intros HS. unfold load_main. set (s0 := begin_op c s).
+  intros HS. unfold load_main_raw. set (s0 := begin_op c s).
   pose proof (Stable_begin_op c s HS) as HS0. fold s0 in HS0.
   destruct (Stable_Inv s0 HS0) as [HI0 Hold0].
   assert (Eh0 : heap s0 = heap s) by (subst s0; unfold begin_op; destruct (cglobal c); reflexivity).
@@ -1088,11 +1116,11 @@ Proof.
   - intros x g t. rewrite El3. apply (inv_loc _ _ HI).
 Qed.
 
-Theorem load_main_stable fs c f s : Stable s -> Stable (snd (load_main fs c f s)).
+Theorem load_main_stable_raw fs c f s : Stable s -> Stable (snd (load_main_raw fs c f s)).
 Proof.
-  intro HS. destruct (load_main fs c f s) as [[e|m] s'] eqn:E; cbn [snd].
-  - destruct (load_main_failure_clean fs c f s e s' HS E) as [_ [_ H]]. exact H.
-  - revert E. unfold load_main. set (s0 := begin_op c s).
+  intro HS. destruct (load_main_raw fs c f s) as [[e|m] s'] eqn:E; cbn [snd].
+  - destruct (load_main_failure_clean_raw fs c f s e s' HS E) as [_ [_ H]]. exact H.
+  - revert E. unfold load_main_raw. set (s0 := begin_op c s).
     pose proof (Stable_begin_op c s HS) as HS0. fold s0 in HS0.
     destruct (Stable_Inv s0 HS0) as [HI0 Hold0].
     destruct (if cglobal c then dget f (allm s0) else None) as [m0|] eqn:Ec.
@@ -1108,11 +1136,6 @@ Qed.
 Lemma Stable_init b : Stable (init_state b).
 Proof. unfold Stable, init_state, file_ok, local_of. cbn. repeat split; try constructor; try tauto. Qed.
 
-Theorem run_hist_stable c ops : forall fs s, Stable s -> Stable (run_hist c fs s ops).
-Proof.
-  induction ops as [|[f|f fc] t IH]; intros fs s HS; cbn; [exact HS | | apply IH; exact HS].
-  apply IH. apply load_main_stable. exact HS.
-Qed.
 
 (* ================================================================== 6. lookup order *)
 Lemma first_some_app {A B} (f : A -> option B) l1 l2 :
@@ -1164,35 +1187,8 @@ Proof.
     + destruct (find_elem n l) as [j|]; [|discriminate]. cbn. intro H. inversion H; subst. cbn. apply IH. reflexivity.
 Qed.
 
-(* history-level corollaries *)
-Theorem hist_single_model_per_file c b fs ops :
-  let s := run_hist c fs (init_state b) ops in
-  NoDup (keys s) /\ NoDup (vals s) /\
-  (forall k v, In (k, v) (allm s) -> exists mi, nth_error (heap s) v = Some mi /\ mfile mi = k).
-Proof.
-  intro s. destruct (run_hist_stable c ops fs (init_state b) (Stable_init b)) as [A [B [C _]]]. auto.
-Qed.
 
-Theorem failure_leaves_only_earlier_models fs c f s e s' :
-  Stable s -> load_main fs c f s = (inl e, s') ->
-  (forall k v, In (k, v) (allm s') -> v < length (heap s) /\ In (k, v) (allm s)) /\
-  (cglobal c = true -> allm s' = allm s).
-Proof.
-  intros HS E. destruct (load_main_failure_clean fs c f s e s' HS E) as [Ha _].
-  assert (Hb : cglobal c = true -> allm (begin_op c s) = allm s) by (intro Hg; unfold begin_op; rewrite Hg; reflexivity).
-  split; [|intro Hg; rewrite Ha; apply Hb; exact Hg].
-  intros k v Hin. rewrite Ha in Hin. unfold begin_op in Hin. destruct (cglobal c); cbn in Hin; [|destruct Hin].
-  split; [|exact Hin]. destruct HS as [_ [_ [C _]]]. destruct (C k v Hin) as [mi [H _]]. apply nth_error_Some. congruence.
-Qed.
 
-Theorem after_failure_cache_serves fs fs' c f s e s' k v :
-  Stable s -> load_main fs c f s = (inl e, s') -> cglobal c = true ->
-  dget k (allm s) = Some v ->
-  fst (load_main fs' c k s') = inr v /\ reads (snd (load_main fs' c k s')) = [].
-Proof.
-  intros HS E Hg Hk. destruct (failure_leaves_only_earlier_models fs c f s e s' HS E) as [_ Ha].
-  specialize (Ha Hg). destruct (cached_load_returns_cached fs' c k s' v Hg ltac:(rewrite Ha; exact Hk)) as [A [B _]]. auto.
-Qed.
 
 (* ================================================================== 7. local models are the registered models (identity) *)
 Lemma In_dset_inv {A} (g : nat) (v : A) l g' t : In (g', t) (dset g v l) -> (g' = g /\ t = v) \/ In (g', t) l.
@@ -1346,11 +1342,11 @@ Definition LocReg (s : state) : Prop :=
 Lemma LocReg_init b : LocReg (init_state b).
 Proof. intros x g t _ []. Qed.
 
-Theorem load_main_ok_registered fs c f s m s' :
-  Stable s -> LocReg s -> load_main fs c f s = (inr m, s') ->
+Theorem load_main_ok_registered_raw fs c f s m s' :
+  Stable s -> LocReg s -> load_main_raw fs c f s = (inr m, s') ->
   forall x g t, In (g, t) (local_of x s') -> (In x (vals s') \/ x = m) -> dget g (allm s') = Some t.
 Proof.
-  intros HS HL. unfold load_main. set (s0 := begin_op c s).
+  intros HS HL. unfold load_main_raw. set (s0 := begin_op c s).
   pose proof (Stable_begin_op c s HS) as HS0. fold s0 in HS0.
   destruct (Stable_Inv s0 HS0) as [HI0 Hold0].
   assert (HL0 : LocReg s0).
@@ -1373,6 +1369,604 @@ Proof.
   destruct Hx as [Hx | ->]; [right; rewrite <- Ea; exact Hx | left; exact Hm1].
 Qed.
 
+
+
+(* C17 identity: after a successful load, every name looked up from a model of the result resolves into the
+   model itself, a builtin model, or THE model registered in all_models for the target's file *)
+
+
+Lemma registered_same_file_same_model s t1 t2 :
+  dget (file_of t1 s) (allm s) = Some t1 -> dget (file_of t2 s) (allm s) = Some t2 -> file_of t1 s = file_of t2 s -> t1 = t2.
+Proof. intros H1 H2 E. rewrite E in H1. congruence. Qed.
+
+(* ================================================================== 8. the load as observed: garbage collection (tidy) *)
+Notation ltn n := (fun x : nat => Nat.ltb x n).
+Notation keyltn n := (fun kv : nat * list (option (nat * nat)) => Nat.ltb (fst kv) n).
+
+Lemma targets_handler m s : targets (handler m s) = targets s.
+Proof. unfold handler. destruct cleanup_construction_failure; [apply targets_remove_from_repos | reflexivity]. Qed.
+Lemma curop_handler m s : curop (handler m s) = curop s.
+Proof. unfold handler. destruct cleanup_construction_failure; [apply curop_remove_from_repos | reflexivity]. Qed.
+
+Lemma filter_dset_high {A} n x (v : A) l : n <= x ->
+  filter (fun kv => Nat.ltb (fst kv) n) (dset x v l) = filter (fun kv => Nat.ltb (fst kv) n) l.
+Proof.
+  intro Hx. assert (Hf : Nat.ltb x n = false) by (apply Nat.ltb_ge; exact Hx).
+  induction l as [|[k w] l IH]; cbn [dset filter fst].
+  - rewrite Hf. reflexivity.
+  - destruct (Nat.eqb x k) eqn:E; cbn [filter fst].
+    + apply Nat.eqb_eq in E. subst k. rewrite Hf. reflexivity.
+    + rewrite IH. reflexivity.
+Qed.
+
+Lemma resolve_all_old c n models : forall s s', (forall x, In x models -> n <= x) -> resolve_all c models s = inr s' ->
+  filter (keyltn n) (targets s') = filter (keyltn n) (targets s) /\ curop s' = curop s.
+Proof.
+  induction models as [|x t IH]; intros s s' Hm; cbn.
+  - intro H. inversion H. auto.
+  - destruct (resolve_refs c s x (refs_of x s)) as [tg|]; [|discriminate]. intro H.
+    apply IH in H; [|intros y Hy; apply Hm; right; exact Hy]. destruct H as [H1 H2]. split; [|exact H2].
+    etransitivity; [exact H1|]. cbn [targets with_targets]. apply filter_dset_high. apply Hm. left. reflexivity.
+Qed.
+
+Lemma filter_filter_low n (p : nat -> bool) l : (forall x, x < n -> p x = true) -> filter (ltn n) (filter p l) = filter (ltn n) l.
+Proof.
+  intro H. induction l as [|a l IH]; cbn [filter]; [reflexivity|].
+  destruct (Nat.ltb a n) eqn:E.
+  - pose proof E as E'. apply Nat.ltb_lt in E'. rewrite (H a E'). cbn [filter]. rewrite E, IH. reflexivity.
+  - destruct (p a); cbn [filter]; rewrite ?E; exact IH.
+Qed.
+
+Lemma finish_main_failure_frame n0 c f m cached s1 e s' :
+  Inv n0 s1 -> n0 <= m -> finish_main c f m cached s1 = (inl e, s') ->
+  heap s' = heap s1 /\ filter (ltn n0) (constr s') = filter (ltn n0) (constr s1) /\
+  filter (keyltn n0) (targets s') = filter (keyltn n0) (targets s1) /\ curop s' = curop s1.
+Proof.
+  intros HI Hm. unfold finish_main. rewrite src_cleanup_inner, src_cleanup_mp.
+  set (models := filter (fun x => mem x (constr s1)) (included m s1)).
+  destruct (constr_rem_facts n0 s1 m HI Hm) as [_ Hr]. fold models in Hr.
+  destruct (resolve_all c models s1) as [e1|s2] eqn:Er.
+  { intro H. inversion H; subst.
+    rewrite heap_handler, constr_handler, targets_handler, curop_handler,
+      heap_remove_from_repos, constr_remove_from_repos, targets_remove_from_repos, curop_remove_from_repos. auto. }
+  destruct (resolve_all_old c n0 models s1 s2 Hr Er) as [Et Eo].
+  apply resolve_all_frame in Er. destruct Er as [_ [Ea [Eh [El Ec]]]].
+  set (s3 := with_constr s2 (filter (fun x => negb (mem x models)) (constr s2))).
+  assert (Hc3 : filter (ltn n0) (constr s3) = filter (ltn n0) (constr s1)).
+  { subst s3. cbn [constr with_constr]. rewrite Ec. apply filter_filter_low. intros x Hx.
+    apply negb_true_iff, mem_false. intro Hin. apply Hr in Hin. lia. }
+  destruct (first_obj_fail models s3).
+  { intro H. inversion H; subst.
+    rewrite heap_handler, constr_handler, targets_handler, curop_handler,
+      heap_remove_from_repos, constr_remove_from_repos, targets_remove_from_repos, curop_remove_from_repos.
+    repeat split; [exact Eh | exact Hc3 | exact Et | exact Eo]. }
+  destruct (flag_of fmp m s3); [|discriminate].
+  intro H. inversion H; subst.
+  rewrite heap_remove_from_repos, constr_remove_from_repos, targets_remove_from_repos, curop_remove_from_repos.
+  repeat split; [exact Eh | exact Hc3 | exact Et | exact Eo].
+Qed.
+
+Lemma prefix_firstn {A} (l l' : list A) :
+  (forall v a, nth_error l v = Some a -> nth_error l' v = Some a) -> firstn (length l) l' = l.
+Proof.
+  revert l'. induction l as [|a l IH]; intros l' H; [reflexivity|].
+  destruct l' as [|b l']; [specialize (H 0 a eq_refl); discriminate|].
+  pose proof (H 0 a eq_refl) as H0. cbn in H0. inversion H0; subst b. cbn. f_equal.
+  apply IH. intros v x Hv. exact (H (S v) x Hv).
+Qed.
+
+(* what a failing raw load leaves of the earlier state, beyond C18_clean *)
+Lemma load_main_raw_failure_frame fs c f s e s1 :
+  Stable s -> load_main_raw fs c f s = (inl e, s1) ->
+  firstn (length (heap s)) (heap s1) = heap s /\
+  filter (ltn (length (heap s))) (constr s1) = filter (ltn (length (heap s))) (constr s) /\
+  filter (keyltn (length (heap s))) (targets s1) = filter (keyltn (length (heap s))) (targets s) /\
+  curop s1 = curop s.
+Proof.
+  intros HS. unfold load_main_raw. set (s0 := begin_op c s).
+  pose proof (Stable_begin_op c s HS) as HS0. fold s0 in HS0.
+  destruct (Stable_Inv s0 HS0) as [HI0 Hold0].
+  assert (E0 : heap s0 = heap s /\ constr s0 = constr s /\ targets s0 = targets s /\ curop s0 = curop s)
+    by (subst s0; unfold begin_op; destruct (cglobal c); auto).
+  destruct E0 as [Eh0 [Ec0 [Et0 Eo0]]].
+  set (n0 := length (heap s0)) in *.
+  assert (En : n0 = length (heap s)) by (unfold n0; rewrite Eh0; reflexivity).
+  destruct (if cglobal c then dget f (allm s0) else None) as [m|] eqn:Ec.
+  { destruct (model_processors_on_cached && flag_of fmp m s0)%bool; intro H; inversion H; subst s1.
+    rewrite Eh0, Ec0, Et0, Eo0. split; [apply firstn_all | auto]. }
+  assert (Hg : dget f (allm s0) = None).
+  { destruct (cglobal c) eqn:Eg; [exact Ec|]. subst s0. unfold begin_op. rewrite Eg. reflexivity. }
+  destruct (load_file_cl fs c n0 (S (length fs)) true f s0 HI0 Hg) as [Hst [Hok _]].
+  destruct (load_file fs c (S (length fs)) true f s0) as [[e1|m] s1'] eqn:El; cbn [fst snd] in *.
+  - intro H. inversion H; subst. rewrite <- En, <- Eh0, <- Ec0, <- Et0, <- Eo0. fold n0.
+    split; [apply prefix_firstn; apply (st_heap _ _ _ Hst)|]. split; [apply (st_cold _ _ _ Hst)|].
+    split; [rewrite (st_tgt _ _ _ Hst); reflexivity | apply (st_curop _ _ _ Hst)].
+  - destruct (Hok m eq_refl) as [_ [Hm _]]. intro H.
+    destruct (finish_main_failure_frame n0 c f m _ s1' e s1 (st_inv _ _ _ Hst) Hm H) as [Fh [Fc [Ft Fo]]].
+    rewrite <- En, <- Eh0, <- Ec0, <- Et0, <- Eo0. fold n0. rewrite Fh, Fc, Ft, Fo.
+    split; [apply prefix_firstn; apply (st_heap _ _ _ Hst)|]. split; [apply (st_cold _ _ _ Hst)|].
+    split; [rewrite (st_tgt _ _ _ Hst); reflexivity | apply (st_curop _ _ _ Hst)].
+Qed.
+
+(* ---- projections of tidy *)
+Lemma allm_tidy n s : allm (tidy n s) = allm s. Proof. reflexivity. Qed.
+Lemma reads_tidy n s : reads (tidy n s) = reads s. Proof. reflexivity. Qed.
+Lemma heap_tidy n s : heap (tidy n s) = firstn n (heap s). Proof. reflexivity. Qed.
+Lemma length_heap_tidy n s : n <= length (heap s) -> length (heap (tidy n s)) = n.
+Proof. intro H. rewrite heap_tidy, firstn_length. lia. Qed.
+
+Lemma nth_error_firstn_lt {A} n (l : list A) v : v < n -> nth_error (firstn n l) v = nth_error l v.
+Proof.
+  revert l v. induction n as [|n IH]; intros l v Hv; [lia|].
+  destruct l as [|a l]; [destruct v; reflexivity|]. destruct v as [|v]; [reflexivity|]. cbn. apply IH. lia.
+Qed.
+
+Lemma dget_tab (F : nat -> list (nat * nat)) k : forall a x,
+  dget x (filter nonempty_entry (map (fun y => (y, F y)) (seq a k))) =
+  if (Nat.leb a x && Nat.ltb x (a + k) && negb (is_nil (F x)))%bool then Some (F x) else None.
+Proof.
+  induction k as [|k IH]; intros a x; cbn [seq map filter].
+  - cbn [dget]. rewrite Nat.add_0_r.
+    destruct (Nat.leb a x) eqn:E1; [|reflexivity]. apply Nat.leb_le in E1.
+    replace (Nat.ltb x a) with false by (symmetry; apply Nat.ltb_ge; exact E1). reflexivity.
+  - unfold nonempty_entry at 1. cbn [snd].
+    destruct (Nat.eq_dec x a) as [->|Hne].
+    + replace (Nat.leb a a) with true by (symmetry; apply Nat.leb_refl).
+      replace (Nat.ltb a (a + S k)) with true by (symmetry; apply Nat.ltb_lt; lia). cbn [andb].
+      destruct (is_nil (F a)) eqn:En; cbn [negb].
+      * rewrite IH. replace (Nat.leb (S a) a) with false by (symmetry; apply Nat.leb_gt; lia). reflexivity.
+      * cbn [dget]. rewrite Nat.eqb_refl. reflexivity.
+    + assert (Hrest : dget x (filter nonempty_entry (map (fun y => (y, F y)) (seq (S a) k))) =
+                      if (Nat.leb a x && Nat.ltb x (a + S k) && negb (is_nil (F x)))%bool then Some (F x) else None).
+      { rewrite IH. replace (Nat.ltb x (S a + k)) with (Nat.ltb x (a + S k)) by (f_equal; lia).
+        replace (Nat.leb (S a) x) with (Nat.leb a x); [reflexivity|].
+        destruct (Nat.leb a x) eqn:E1; symmetry; [apply Nat.leb_le; apply Nat.leb_le in E1; lia | apply Nat.leb_gt; apply Nat.leb_gt in E1; lia]. }
+      destruct (negb (is_nil (F a))); [|exact Hrest].
+      cbn [dget]. replace (Nat.eqb x a) with false by (symmetry; apply Nat.eqb_neq; exact Hne). exact Hrest.
+Qed.
+
+Lemma local_of_tidy n s x : local_of x (tidy n s) = if Nat.ltb x n then local_of x s else [].
+Proof.
+  unfold local_of at 1. cbn [locals tidy]. unfold norm_locals. rewrite (dget_tab (fun y => local_of y s) n 0 x).
+  cbn [Nat.leb andb plus]. destruct (Nat.ltb x n); [|reflexivity].
+  cbn [andb]. destruct (local_of x s) eqn:E; reflexivity.
+Qed.
+Lemma local_of_tidy_lt n s x : x < n -> local_of x (tidy n s) = local_of x s.
+Proof. intro H. rewrite local_of_tidy. apply Nat.ltb_lt in H. rewrite H. reflexivity. Qed.
+Lemma In_local_of_tidy n s x g t : In (g, t) (local_of x (tidy n s)) -> x < n /\ In (g, t) (local_of x s).
+Proof. rewrite local_of_tidy. destruct (Nat.ltb x n) eqn:E; [apply Nat.ltb_lt in E; auto | intros []]. Qed.
+
+Lemma Stable_tidy n s : Stable s -> n <= length (heap s) ->
+  (forall k v, In (k, v) (allm s) -> v < n) ->
+  (forall x g t, x < n -> In (g, t) (local_of x s) -> t < n) ->
+  Stable (tidy n s).
+Proof.
+  intros [A [B [C [D E]]]] Hn Hv Hl. unfold Stable, file_ok. rewrite allm_tidy, (length_heap_tidy n s Hn).
+  split; [exact A|]. split; [exact B|]. split; [|split].
+  - intros k v Hin. destruct (C k v Hin) as [mi [H1 H2]]. exists mi. split; [|exact H2].
+    rewrite heap_tidy, nth_error_firstn_lt; [exact H1 | eapply Hv; exact Hin].
+  - intros v Hin Hc. cbn [constr tidy] in Hc. apply filter_In in Hc as [Hc _]. eapply D; eassumption.
+  - intros x g t Hin. apply In_local_of_tidy in Hin as [Hx Hin]. split; [exact Hx | eapply Hl; eassumption].
+Qed.
+
+(* ---- the theorems about the raw load carry over to the load as observed *)
+Theorem load_main_once fs c f s :
+  K (begin_op c s) ->
+  fst (load_main fs c f s) <> inl EFuel /\ NoDup (reads (snd (load_main fs c f s))).
+Proof. intro H. unfold load_main. cbn [fst snd]. rewrite reads_tidy. apply load_main_once_raw. exact H. Qed.
+
+Lemma cached_load_returns_cached fs c f s m :
+  cglobal c = true -> dget f (allm s) = Some m ->
+  fst (load_main fs c f s) = inr m /\ reads (snd (load_main fs c f s)) = [] /\ allm (snd (load_main fs c f s)) = allm s.
+Proof.
+  intros Hg Hc. unfold load_main. cbn [fst snd]. rewrite reads_tidy, allm_tidy. apply cached_load_returns_cached_raw; assumption.
+Qed.
+
+Theorem load_main_failure_clean fs c f s e s' :
+  Stable s -> load_main fs c f s = (inl e, s') ->
+  allm s' = allm (begin_op c s) /\ (forall x, x < length (heap s) -> local_of x s' = local_of x s) /\ Stable s'.
+Proof.
+  intros HS. unfold load_main, live_bound. destruct (load_main_raw fs c f s) as [r s1] eqn:E. cbn [fst snd].
+  intro H. inversion H; subst r s'. clear H.
+  destruct (load_main_failure_clean_raw fs c f s e s1 HS E) as [Ha [Hl HS1]].
+  destruct (load_main_raw_failure_frame fs c f s e s1 HS E) as [Hf _].
+  assert (Hn : length (heap s) <= length (heap s1)).
+  { apply (f_equal (@length _)) in Hf. rewrite firstn_length in Hf. lia. }
+  split; [exact Ha|]. split; [intros x Hx; rewrite local_of_tidy_lt by exact Hx; apply Hl; exact Hx|].
+  destruct HS as [_ [_ [C [_ E5]]]].
+  apply Stable_tidy; [exact HS1 | exact Hn | |].
+  - intros k v Hin. rewrite Ha in Hin. unfold begin_op in Hin. destruct (cglobal c); cbn in Hin; [|destruct Hin].
+    destruct (C k v Hin) as [mi [H1 _]]. apply nth_error_Some. congruence.
+  - intros x g t Hx Hin. rewrite (Hl x Hx) in Hin. apply (E5 x g t Hin).
+Qed.
+
+Theorem load_main_stable fs c f s : Stable s -> Stable (snd (load_main fs c f s)).
+Proof.
+  intro HS. destruct (load_main fs c f s) as [[e|m] s'] eqn:E; cbn [snd].
+  - destruct (load_main_failure_clean fs c f s e s' HS E) as [_ [_ H]]. exact H.
+  - revert E. unfold load_main, live_bound. pose proof (load_main_stable_raw fs c f s HS) as HS1.
+    destruct (load_main_raw fs c f s) as [r s1]. cbn [fst snd] in *. intro H. inversion H; subst r s'.
+    pose proof HS1 as HS1'. destruct HS1 as [A [B [C [D E5]]]].
+    apply Stable_tidy; [exact HS1' | apply le_n | |].
+    + intros k v Hin. destruct (C k v Hin) as [mi [H1 _]]. apply nth_error_Some. congruence.
+    + intros x g t _ Hin. apply (E5 x g t Hin).
+Qed.
+
+Theorem load_main_ok_registered fs c f s m s' :
+  Stable s -> LocReg s -> load_main fs c f s = (inr m, s') ->
+  forall x g t, In (g, t) (local_of x s') -> (In x (vals s') \/ x = m) -> dget g (allm s') = Some t.
+Proof.
+  intros HS HL. unfold load_main, live_bound. destruct (load_main_raw fs c f s) as [r s1] eqn:E. cbn [fst snd].
+  intro H. inversion H; subst r s'. intros x g t Hin Hx. rewrite allm_tidy in *.
+  apply In_local_of_tidy in Hin as [_ Hin]. eapply (load_main_ok_registered_raw fs c f s m s1 HS HL E); eassumption.
+Qed.
+
+(* ---- the observed state is in normal form; a failed load restores the state exactly *)
+Definition Tidy (s : state) : Prop :=
+  (forall x, In x (constr s) -> x < length (heap s)) /\
+  (forall kv, In kv (targets s) -> fst kv < length (heap s)) /\
+  locals s = norm_locals (length (heap s)) s.
+
+Lemma norm_locals_ext n s s' : (forall x, x < n -> local_of x s' = local_of x s) -> norm_locals n s' = norm_locals n s.
+Proof.
+  intro H. unfold norm_locals. f_equal. apply map_ext_in. intros x Hx. apply in_seq in Hx. rewrite H by lia. reflexivity.
+Qed.
+
+Lemma tidy_Tidy n s : n <= length (heap s) -> Tidy (tidy n s).
+Proof.
+  intro Hn. unfold Tidy. rewrite (length_heap_tidy n s Hn). split; [|split].
+  - intros x Hx. cbn [constr tidy] in Hx. apply filter_In in Hx as [_ Hx]. apply Nat.ltb_lt. exact Hx.
+  - intros kv Hk. cbn [targets tidy] in Hk. apply filter_In in Hk as [_ Hk]. apply Nat.ltb_lt. exact Hk.
+  - cbn [locals tidy]. symmetry. apply norm_locals_ext. intros x Hx. apply local_of_tidy_lt. exact Hx.
+Qed.
+
+Lemma Tidy_init b : Tidy (init_state b).
+Proof.
+  unfold Tidy, init_state. cbn [constr targets locals heap]. split; [intros x []|]. split; [intros kv []|].
+  unfold norm_locals. symmetry. generalize (length (map (fun fc => mkMinfo 0 0 fc) b)). intro n. generalize 0.
+  induction n as [|n IH]; intro a; cbn; [reflexivity|]. apply IH.
+Qed.
+
+Theorem load_main_Tidy fs c f s : Stable s -> Tidy (snd (load_main fs c f s)).
+Proof.
+  intro HS. unfold load_main, live_bound. destruct (load_main_raw fs c f s) as [[e|m] s1] eqn:E; cbn [fst snd]; apply tidy_Tidy; [|apply le_n].
+  destruct (load_main_raw_failure_frame fs c f s e s1 HS E) as [Hf _].
+  apply (f_equal (@length _)) in Hf. rewrite firstn_length in Hf. lia.
+Qed.
+
+Theorem failed_load_restores_state fs c f s e s' :
+  Stable s -> Tidy s -> load_main fs c f s = (inl e, s') ->
+  heap s' = heap s /\ allm s' = allm (begin_op c s) /\ locals s' = locals s /\ constr s' = constr s /\
+  targets s' = targets s /\ curop s' = curop s.
+Proof.
+  intros HS [T1 [T2 T3]] H.
+  destruct (load_main_failure_clean fs c f s e s' HS H) as [Ha _].
+  revert H. unfold load_main, live_bound. destruct (load_main_raw fs c f s) as [r s1] eqn:E. cbn [fst snd].
+  intro H. inversion H; subst r s'. clear H.
+  destruct (load_main_failure_clean_raw fs c f s e s1 HS E) as [_ [Hl _]].
+  destruct (load_main_raw_failure_frame fs c f s e s1 HS E) as [Fh [Fc [Ft Fo]]].
+  split; [exact Fh|]. split; [exact Ha|]. split; [|split; [|split]].
+  - cbn [locals tidy]. rewrite T3. apply norm_locals_ext. exact Hl.
+  - cbn [constr tidy]. rewrite Fc. apply filter_id. intros x Hx. apply Nat.ltb_lt. apply T1. exact Hx.
+  - cbn [targets tidy]. rewrite Ft. apply filter_id. intros kv Hk. apply Nat.ltb_lt. apply T2. exact Hk.
+  - exact Fo.
+Qed.
+
+Lemma load_main_begin_op fs c f a b :
+  begin_op c a = begin_op c b -> length (heap a) = length (heap b) -> load_main fs c f a = load_main fs c f b.
+Proof.
+  intros H Hl. unfold load_main, live_bound, load_main_raw. rewrite H, Hl. reflexivity.
+Qed.
+
+(* C18, last clause: after a failed load, EVERY following load - on whatever the files have been rewritten to -
+   is literally the load that would have happened had the failed attempt never taken place: same outcome, same
+   file-open trace, same resulting state (repositories, local models, reference targets, model identities). *)
+Theorem reload_as_if_never_failed fs c f s e s' :
+  Stable s -> Tidy s -> load_main fs c f s = (inl e, s') ->
+  forall fs' f', load_main fs' c f' s' = load_main fs' c f' s.
+Proof.
+  intros HS HT H fs' f'. destruct (failed_load_restores_state fs c f s e s' HS HT H) as [Eh [Ea [El [Ec [Et Eo]]]]].
+  apply load_main_begin_op; [|rewrite Eh; reflexivity].
+  unfold begin_op in *. destruct s as [h a l co t r o], s' as [h' a' l' co' t' r' o']. cbn in *. subst.
+  destruct (cglobal c); cbn in *; subst; reflexivity.
+Qed.
+
+(* ================================================================== 9. main models loaded from a string *)
+Section StrPhase.
+  Variable fs : list file.
+  Variable c : cfg.
+
+  (* the load phase of a string main model, from the state s0 after begin_op *)
+  Lemma load_str_phase s0 k fc r s4 :
+    let n0 := length (heap s0) in
+    Inv n0 s0 ->
+    (if (clazy c && is_nil (frefs fc))%bool then (None, alloc k fc s0)
+     else load_stmts (load_file fs c (S (length fs)) false) (length (heap s0)) k (fimports fc) (alloc k fc s0)) = (r, s4) ->
+    Step n0 s0 s4 /\ In (length (heap s0)) (constr s4) /\ (LR n0 s0 -> r = None -> LR n0 s4).
+  Proof.
+    intros n0 HI E.
+    set (m := length (heap s0)) in *. set (s2 := alloc k fc s0) in *.
+    assert (Hst2 : Step n0 s0 s2) by (apply Step_alloc; exact HI).
+    assert (Hc2 : In m (constr s2)) by (subst s2; autorewrite with st; left; reflexivity).
+    assert (Hh2 : nth_error (heap s2) m = Some (mkMinfo k (curop s0) fc)).
+    { subst s2 m. autorewrite with st. rewrite nth_error_app2 by lia. rewrite Nat.sub_diag. reflexivity. }
+    assert (Hcl : loader_cl n0 (load_file fs c (S (length fs)) false)).
+    { intros g' s' HI' Hg'. destruct (load_file_cl fs c n0 (S (length fs)) false g' s' HI' Hg') as [A [B _]]. split; [exact A|].
+      intros m' Hm'. destruct (B m' Hm') as [B1 [_ [_ B3]]]. split; [exact B1 | apply B3; reflexivity]. }
+    assert (Hlr : loader_lr n0 (load_file fs c (S (length fs)) false))
+      by (intros g' s' HI' HL' Hg' m' Hm'; apply (load_file_lr fs c n0 (S (length fs)) false g' s' HI' HL' Hg' m' Hm')).
+    destruct (clazy c && is_nil (frefs fc))%bool.
+    - inversion E; subst. split; [exact Hst2|]. split; [exact Hc2|]. intros HL _. eapply LR_ext; [| |exact HL]; reflexivity.
+    - destruct (load_stmts_cl n0 _ _ _ _ _ _ _ _ Hcl (st_inv _ _ _ Hst2) (le_n _) Hc2 Hh2 eq_refl E) as [Hst4 _].
+      split; [eapply Step_trans; eassumption|]. split; [apply (st_constr _ _ _ Hst4); exact Hc2|].
+      intros HL Hr. subst r. eapply load_stmts_lr; [exact Hcl | exact Hlr | apply (st_inv _ _ _ Hst2) | | apply le_n | exact Hc2 | exact Hh2 | reflexivity | exact E].
+      eapply LR_ext; [| |exact HL]; reflexivity.
+  Qed.
+End StrPhase.
+
+Lemma Stable_LR s : Stable s -> LocReg s -> LR (length (heap s)) s.
+Proof.
+  intros HS HL x g t Hin [Hx|Hx]; [|apply (HL x g t Hin Hx)]. destruct HS as [_ [_ [_ [_ E]]]]. destruct (E x g t Hin). lia.
+Qed.
+Lemma LocReg_begin_op c s : LocReg s -> LocReg (begin_op c s).
+Proof. intro HL. unfold begin_op. destruct (cglobal c); [exact HL|]. intros x g t _ []. Qed.
+
+Theorem load_str_failure_clean_raw fs c fc s e s' :
+  Stable s -> load_str_raw fs c fc s = (inl e, s') ->
+  allm s' = allm (begin_op c s) /\ (forall x, x < length (heap s) -> local_of x s' = local_of x s) /\ Stable s'.
+Proof.
+  intros HS. unfold load_str_raw. set (s0 := begin_op c s).
+  pose proof (Stable_begin_op c s HS) as HS0. fold s0 in HS0.
+  destruct (Stable_Inv s0 HS0) as [HI0 Hold0].
+  assert (Eh0 : heap s0 = heap s) by (subst s0; unfold begin_op; destruct (cglobal c); reflexivity).
+  assert (El0 : forall x, local_of x s0 = local_of x s) by (intro x; subst s0; unfold begin_op; destruct (cglobal c); reflexivity).
+  set (n0 := length (heap s0)) in *.
+  destruct (fsyn fc).
+  { intro H. inversion H; subst. split; [reflexivity|]. split; [intros; apply El0 | exact HS0]. }
+  destruct (if (clazy c && is_nil (frefs fc))%bool then _ else _) as [r s4] eqn:E4.
+  destruct (load_str_phase fs c s0 (anon_key fs s0) fc r s4 HI0 E4) as [Hst [Hc _]]. fold n0 in Hst.
+  assert (Hold : old n0 s4 = allm s0) by (rewrite (st_old _ _ _ Hst); unfold old; apply filter_id; exact Hold0).
+  assert (Hloc : forall s'', (forall x, x < n0 -> local_of x s'' = local_of x s4) -> forall x, x < length (heap s) -> local_of x s'' = local_of x s).
+  { intros s'' H x Hx. assert (Hx0 : x < n0) by (unfold n0; rewrite Eh0; exact Hx). rewrite (H x Hx0), (st_loc _ _ _ Hst x Hx0). apply El0. }
+  destruct r as [e1|].
+  - intro H. inversion H; subst. destruct (handler_clean n0 s4 n0 (st_inv _ _ _ Hst) (le_n _)) as [Hh Ha].
+    split; [rewrite Ha; exact Hold|]. split; [apply Hloc; intros x Hx; apply (st_loc _ _ _ Hh x Hx)|].
+    apply (Inv_old_Stable n0); [apply (st_inv _ _ _ Hh) | rewrite Ha, Hold; exact Hold0].
+  - intro H.
+    assert (Hcached : forall v, In v (vals s0) -> v < n0).
+    { intros v Hin. apply in_map_iff in Hin as [[k' v'] [<- Hin]]. specialize (Hold0 _ Hin). unfold is_old in Hold0. cbn in *.
+      apply Nat.ltb_lt. exact Hold0. }
+    destruct (finish_main_clean n0 c _ n0 s0 s4 e s' (st_inv _ _ _ Hst) (le_n _) Hc Hold Hcached H) as [HI' [Ha' Hl']].
+    split; [exact Ha'|]. split; [apply Hloc; exact Hl'|]. apply (Inv_old_Stable n0); [exact HI' | rewrite Ha'; exact Hold0].
+Qed.
+
+Lemma load_str_raw_failure_frame fs c fc s e s1 :
+  Stable s -> load_str_raw fs c fc s = (inl e, s1) ->
+  firstn (length (heap s)) (heap s1) = heap s /\
+  filter (ltn (length (heap s))) (constr s1) = filter (ltn (length (heap s))) (constr s) /\
+  filter (keyltn (length (heap s))) (targets s1) = filter (keyltn (length (heap s))) (targets s) /\
+  curop s1 = curop s.
+Proof.
+  intros HS. unfold load_str_raw. set (s0 := begin_op c s).
+  pose proof (Stable_begin_op c s HS) as HS0. fold s0 in HS0.
+  destruct (Stable_Inv s0 HS0) as [HI0 Hold0].
+  assert (E0 : heap s0 = heap s /\ constr s0 = constr s /\ targets s0 = targets s /\ curop s0 = curop s)
+    by (subst s0; unfold begin_op; destruct (cglobal c); auto).
+  destruct E0 as [Eh0 [Ec0 [Et0 Eo0]]].
+  set (n0 := length (heap s0)) in *.
+  assert (En : n0 = length (heap s)) by (unfold n0; rewrite Eh0; reflexivity).
+  destruct (fsyn fc).
+  { intro H. inversion H; subst s1. rewrite Eh0, Ec0, Et0, Eo0. split; [apply firstn_all | auto]. }
+  destruct (if (clazy c && is_nil (frefs fc))%bool then _ else _) as [r s4] eqn:E4.
+  destruct (load_str_phase fs c s0 (anon_key fs s0) fc r s4 HI0 E4) as [Hst [Hc _]]. fold n0 in Hst.
+  destruct r as [e1|].
+  - intro H. inversion H; subst. rewrite heap_handler, constr_handler, targets_handler, curop_handler.
+    rewrite <- En, <- Eh0, <- Ec0, <- Et0, <- Eo0. fold n0.
+    split; [apply prefix_firstn; apply (st_heap _ _ _ Hst)|]. split; [apply (st_cold _ _ _ Hst)|].
+    split; [rewrite (st_tgt _ _ _ Hst); reflexivity | apply (st_curop _ _ _ Hst)].
+  - intro H. destruct (finish_main_failure_frame n0 c _ n0 _ s4 e s1 (st_inv _ _ _ Hst) (le_n _) H) as [Fh [Fc [Ft Fo]]].
+    rewrite <- En, <- Eh0, <- Ec0, <- Et0, <- Eo0. fold n0. rewrite Fh, Fc, Ft, Fo.
+    split; [apply prefix_firstn; apply (st_heap _ _ _ Hst)|]. split; [apply (st_cold _ _ _ Hst)|].
+    split; [rewrite (st_tgt _ _ _ Hst); reflexivity | apply (st_curop _ _ _ Hst)].
+Qed.
+
+Theorem load_str_stable_raw fs c fc s : Stable s -> Stable (snd (load_str_raw fs c fc s)).
+Proof.
+  intro HS. destruct (load_str_raw fs c fc s) as [[e|m] s'] eqn:E; cbn [snd].
+  - destruct (load_str_failure_clean_raw fs c fc s e s' HS E) as [_ [_ H]]. exact H.
+  - revert E. unfold load_str_raw. set (s0 := begin_op c s).
+    pose proof (Stable_begin_op c s HS) as HS0. fold s0 in HS0.
+    destruct (Stable_Inv s0 HS0) as [HI0 _].
+    destruct (fsyn fc); [discriminate|].
+    destruct (if (clazy c && is_nil (frefs fc))%bool then _ else _) as [r s4] eqn:E4.
+    destruct (load_str_phase fs c s0 (anon_key fs s0) fc r s4 HI0 E4) as [Hst [Hc _]].
+    destruct r as [e1|]; [discriminate|]. intro H.
+    destruct (finish_main_ok_stable _ c _ _ _ s4 m s' (st_inv _ _ _ Hst) Hc H) as [_ [_ [_ [_ HS']]]]. exact HS'.
+Qed.
+
+Theorem load_str_ok_registered_raw fs c fc s m s' :
+  Stable s -> LocReg s -> load_str_raw fs c fc s = (inr m, s') ->
+  forall x g t, In (g, t) (local_of x s') -> (In x (vals s') \/ x = m) -> dget g (allm s') = Some t.
+Proof.
+  intros HS HL. unfold load_str_raw. set (s0 := begin_op c s).
+  pose proof (Stable_begin_op c s HS) as HS0. fold s0 in HS0.
+  destruct (Stable_Inv s0 HS0) as [HI0 _].
+  pose proof (Stable_LR s0 HS0 (LocReg_begin_op c s HL)) as HLR0. fold s0 in HLR0.
+  destruct (fsyn fc); [discriminate|].
+  destruct (if (clazy c && is_nil (frefs fc))%bool then _ else _) as [r s4] eqn:E4.
+  destruct (load_str_phase fs c s0 (anon_key fs s0) fc r s4 HI0 E4) as [Hst [Hc Hlr]].
+  destruct r as [e1|]; [discriminate|]. specialize (Hlr HLR0 eq_refl). intro H.
+  destruct (finish_main_ok_stable _ c _ _ _ s4 m s' (st_inv _ _ _ Hst) Hc H) as [-> [Ea [_ [El _]]]].
+  intros x g t Hin Hx. rewrite Ea. rewrite (local_of_ext s4 s' x El) in Hin. apply (Hlr x g t Hin).
+  destruct Hx as [Hx | ->]; [right; rewrite <- Ea; exact Hx | left; apply le_n].
+Qed.
+
+(* ---- the observed string load (with garbage collection) *)
+Theorem load_str_failure_clean fs c fc s e s' :
+  Stable s -> load_str fs c fc s = (inl e, s') ->
+  allm s' = allm (begin_op c s) /\ (forall x, x < length (heap s) -> local_of x s' = local_of x s) /\ Stable s'.
+Proof.
+  intros HS. unfold load_str, live_bound. destruct (load_str_raw fs c fc s) as [r s1] eqn:E. cbn [fst snd].
+  intro H. inversion H; subst r s'. clear H.
+  destruct (load_str_failure_clean_raw fs c fc s e s1 HS E) as [Ha [Hl HS1]].
+  destruct (load_str_raw_failure_frame fs c fc s e s1 HS E) as [Hf _].
+  assert (Hn : length (heap s) <= length (heap s1)).
+  { apply (f_equal (@length _)) in Hf. rewrite firstn_length in Hf. lia. }
+  split; [exact Ha|]. split; [intros x Hx; rewrite local_of_tidy_lt by exact Hx; apply Hl; exact Hx|].
+  destruct HS as [_ [_ [C [_ E5]]]].
+  apply Stable_tidy; [exact HS1 | exact Hn | |].
+  - intros k v Hin. rewrite Ha in Hin. unfold begin_op in Hin. destruct (cglobal c); cbn in Hin; [|destruct Hin].
+    destruct (C k v Hin) as [mi [H1 _]]. apply nth_error_Some. congruence.
+  - intros x g t Hx Hin. rewrite (Hl x Hx) in Hin. apply (E5 x g t Hin).
+Qed.
+
+Theorem load_str_stable fs c fc s : Stable s -> Stable (snd (load_str fs c fc s)).
+Proof.
+  intro HS. destruct (load_str fs c fc s) as [[e|m] s'] eqn:E; cbn [snd].
+  - destruct (load_str_failure_clean fs c fc s e s' HS E) as [_ [_ H]]. exact H.
+  - revert E. unfold load_str, live_bound. pose proof (load_str_stable_raw fs c fc s HS) as HS1.
+    destruct (load_str_raw fs c fc s) as [r s1]. cbn [fst snd] in *. intro H. inversion H; subst r s'.
+    pose proof HS1 as HS1'. destruct HS1 as [A [B [C [D E5]]]].
+    apply Stable_tidy; [exact HS1' | apply le_n | |].
+    + intros k v Hin. destruct (C k v Hin) as [mi [H1 _]]. apply nth_error_Some. congruence.
+    + intros x g t _ Hin. apply (E5 x g t Hin).
+Qed.
+
+Theorem load_str_ok_registered fs c fc s m s' :
+  Stable s -> LocReg s -> load_str fs c fc s = (inr m, s') ->
+  forall x g t, In (g, t) (local_of x s') -> (In x (vals s') \/ x = m) -> dget g (allm s') = Some t.
+Proof.
+  intros HS HL. unfold load_str, live_bound. destruct (load_str_raw fs c fc s) as [r s1] eqn:E. cbn [fst snd].
+  intro H. inversion H; subst r s'. intros x g t Hin Hx. rewrite allm_tidy in *.
+  apply In_local_of_tidy in Hin as [_ Hin]. eapply (load_str_ok_registered_raw fs c fc s m s1 HS HL E); eassumption.
+Qed.
+
+Theorem load_str_locreg fs c fc s : Stable s -> LocReg s -> LocReg (snd (load_str fs c fc s)).
+Proof.
+  intros HS HL. destruct (load_str fs c fc s) as [[e|m] s'] eqn:E; cbn [snd].
+  - destruct (load_str_failure_clean fs c fc s e s' HS E) as [Ha [Hl _]].
+    intros x g t Hin Hx. rewrite Ha in *. unfold begin_op in *. destruct (cglobal c); cbn [allm with_reads with_allm map] in *; [|destruct Hx].
+    assert (Hlt : x < length (heap s)).
+    { apply in_map_iff in Hx as [[k v] [<- Hx]]. destruct HS as [_ [_ [C _]]]. destruct (C k v Hx) as [mi [H _]]. apply nth_error_Some. cbn. congruence. }
+    rewrite (Hl x Hlt) in Hin. apply (HL x g t Hin Hx).
+  - intros x g t Hin Hx. eapply (load_str_ok_registered fs c fc s m s' HS HL E); [exact Hin | left; exact Hx].
+Qed.
+
+Theorem load_str_Tidy fs c fc s : Stable s -> Tidy (snd (load_str fs c fc s)).
+Proof.
+  intro HS. unfold load_str, live_bound. destruct (load_str_raw fs c fc s) as [[e|m] s1] eqn:E; cbn [fst snd]; apply tidy_Tidy; [|apply le_n].
+  destruct (load_str_raw_failure_frame fs c fc s e s1 HS E) as [Hf _].
+  apply (f_equal (@length _)) in Hf. rewrite firstn_length in Hf. lia.
+Qed.
+
+Theorem failed_load_str_restores_state fs c fc s e s' :
+  Stable s -> Tidy s -> load_str fs c fc s = (inl e, s') ->
+  heap s' = heap s /\ allm s' = allm (begin_op c s) /\ locals s' = locals s /\ constr s' = constr s /\
+  targets s' = targets s /\ curop s' = curop s.
+Proof.
+  intros HS [T1 [T2 T3]] H.
+  destruct (load_str_failure_clean fs c fc s e s' HS H) as [Ha _].
+  revert H. unfold load_str, live_bound. destruct (load_str_raw fs c fc s) as [r s1] eqn:E. cbn [fst snd].
+  intro H. inversion H; subst r s'. clear H.
+  destruct (load_str_failure_clean_raw fs c fc s e s1 HS E) as [_ [Hl _]].
+  destruct (load_str_raw_failure_frame fs c fc s e s1 HS E) as [Fh [Fc [Ft Fo]]].
+  split; [exact Fh|]. split; [exact Ha|]. split; [|split; [|split]].
+  - cbn [locals tidy]. rewrite T3. apply norm_locals_ext. exact Hl.
+  - cbn [constr tidy]. rewrite Fc. apply filter_id. intros x Hx. apply Nat.ltb_lt. apply T1. exact Hx.
+  - cbn [targets tidy]. rewrite Ft. apply filter_id. intros kv Hk. apply Nat.ltb_lt. apply T2. exact Hk.
+  - exact Fo.
+Qed.
+
+Lemma load_str_begin_op fs c fc a b :
+  begin_op c a = begin_op c b -> length (heap a) = length (heap b) -> load_str fs c fc a = load_str fs c fc b.
+Proof. intros H Hl. unfold load_str, live_bound, load_str_raw. rewrite H, Hl. reflexivity. Qed.
+
+(* whatever failed (a file load or a string load), whatever follows (a file load or a string load) is literally
+   what it would have been without the failed attempt *)
+Lemma restored_state_same_loads c s s' :
+  heap s' = heap s /\ allm s' = allm (begin_op c s) /\ locals s' = locals s /\ constr s' = constr s /\
+  targets s' = targets s /\ curop s' = curop s ->
+  (forall fs' f', load_main fs' c f' s' = load_main fs' c f' s) /\
+  (forall fs' fc', load_str fs' c fc' s' = load_str fs' c fc' s).
+Proof.
+  intros [Eh [Ea [El [Ec [Et Eo]]]]].
+  assert (Eb : begin_op c s' = begin_op c s).
+  { unfold begin_op in *. destruct s as [h a l co t r o], s' as [h' a' l' co' t' r' o']. cbn in *. subst.
+    destruct (cglobal c); cbn in *; subst; reflexivity. }
+  split; intros; [apply load_main_begin_op | apply load_str_begin_op]; try exact Eb; rewrite Eh; reflexivity.
+Qed.
+
+Theorem next_load_as_if_never_failed c s s' :
+  Stable s -> Tidy s ->
+  (exists fs f e, load_main fs c f s = (inl e, s')) \/ (exists fs fc e, load_str fs c fc s = (inl e, s')) ->
+  (forall fs' f', load_main fs' c f' s' = load_main fs' c f' s) /\
+  (forall fs' fc', load_str fs' c fc' s' = load_str fs' c fc' s).
+Proof.
+  intros HS HT [[fs [f [e H]]]|[fs [fc [e H]]]]; apply restored_state_same_loads.
+  - exact (failed_load_restores_state fs c f s e s' HS HT H).
+  - exact (failed_load_str_restores_state fs c fc s e s' HS HT H).
+Qed.
+
+Theorem run_hist_stable_tidy c ops : forall fs s, Stable s -> Tidy s -> Stable (run_hist c fs s ops) /\ Tidy (run_hist c fs s ops).
+Proof.
+  induction ops as [|[f|f fc|fc] t IH]; intros fs s HS HT; cbn; [auto | | apply IH; assumption | ].
+  - apply IH; [apply load_main_stable; exact HS | apply load_main_Tidy; exact HS].
+  - apply IH; [apply load_str_stable; exact HS | apply load_str_Tidy; exact HS].
+Qed.
+
+(* a failing load can be dropped from a history: what follows is unchanged *)
+Theorem failing_load_is_invisible c fs f s e s' ops fs' f' :
+  Stable s -> Tidy s -> load_main fs c f s = (inl e, s') ->
+  run_hist c fs' s' (OLoad f' :: ops) = run_hist c fs' s (OLoad f' :: ops).
+Proof.
+  intros HS HT H. cbn [run_hist]. rewrite (reload_as_if_never_failed fs c f s e s' HS HT H fs' f'). reflexivity.
+Qed.
+
+Theorem reload_in_history c b fs0 ops fs f e s' :
+  let s := run_hist c fs0 (init_state b) ops in
+  load_main fs c f s = (inl e, s') -> forall fs' f', load_main fs' c f' s' = load_main fs' c f' s.
+Proof.
+  intros s H. destruct (run_hist_stable_tidy c ops fs0 (init_state b) (Stable_init b) (Tidy_init b)) as [HS HT].
+  exact (reload_as_if_never_failed fs c f s e s' HS HT H).
+Qed.
+
+Theorem run_hist_stable c ops : forall fs s, Stable s -> Stable (run_hist c fs s ops).
+Proof.
+  induction ops as [|[f|f fc|fc] t IH]; intros fs s HS; cbn; [exact HS | | apply IH; exact HS | ].
+  - apply IH. apply load_main_stable. exact HS.
+  - apply IH. apply load_str_stable. exact HS.
+Qed.
+
+(* history-level corollaries *)
+Theorem hist_single_model_per_file c b fs ops :
+  let s := run_hist c fs (init_state b) ops in
+  NoDup (keys s) /\ NoDup (vals s) /\
+  (forall k v, In (k, v) (allm s) -> exists mi, nth_error (heap s) v = Some mi /\ mfile mi = k).
+Proof.
+  intro s. destruct (run_hist_stable c ops fs (init_state b) (Stable_init b)) as [A [B [C _]]]. auto.
+Qed.
+
+Theorem failure_leaves_only_earlier_models fs c f s e s' :
+  Stable s -> load_main fs c f s = (inl e, s') ->
+  (forall k v, In (k, v) (allm s') -> v < length (heap s) /\ In (k, v) (allm s)) /\
+  (cglobal c = true -> allm s' = allm s).
+Proof.
+  intros HS E. destruct (load_main_failure_clean fs c f s e s' HS E) as [Ha _].
+  assert (Hb : cglobal c = true -> allm (begin_op c s) = allm s) by (intro Hg; unfold begin_op; rewrite Hg; reflexivity).
+  split; [|intro Hg; rewrite Ha; apply Hb; exact Hg].
+  intros k v Hin. rewrite Ha in Hin. unfold begin_op in Hin. destruct (cglobal c); cbn in Hin; [|destruct Hin].
+  split; [|exact Hin]. destruct HS as [_ [_ [C _]]]. destruct (C k v Hin) as [mi [H _]]. apply nth_error_Some. congruence.
+Qed.
+
+Theorem after_failure_cache_serves fs fs' c f s e s' k v :
+  Stable s -> load_main fs c f s = (inl e, s') -> cglobal c = true ->
+  dget k (allm s) = Some v ->
+  fst (load_main fs' c k s') = inr v /\ reads (snd (load_main fs' c k s')) = [].
+Proof.
+  intros HS E Hg Hk. destruct (failure_leaves_only_earlier_models fs c f s e s' HS E) as [_ Ha].
+  specialize (Ha Hg). destruct (cached_load_returns_cached fs' c k s' v Hg ltac:(rewrite Ha; exact Hk)) as [A [B _]]. auto.
+Qed.
+
 Theorem load_main_locreg fs c f s : Stable s -> LocReg s -> LocReg (snd (load_main fs c f s)).
 Proof.
   intros HS HL. destruct (load_main fs c f s) as [[e|m] s'] eqn:E; cbn [snd].
@@ -1386,12 +1980,11 @@ Qed.
 
 Theorem run_hist_locreg c ops : forall fs s, Stable s -> LocReg s -> LocReg (run_hist c fs s ops).
 Proof.
-  induction ops as [|[f|f fc] t IH]; intros fs s HS HL; cbn; [exact HL | | apply IH; assumption].
-  apply IH; [apply load_main_stable; exact HS | apply load_main_locreg; assumption].
+  induction ops as [|[f|f fc|fc] t IH]; intros fs s HS HL; cbn; [exact HL | | apply IH; assumption | ].
+  - apply IH; [apply load_main_stable; exact HS | apply load_main_locreg; assumption].
+  - apply IH; [apply load_str_stable; exact HS | apply load_str_locreg; assumption].
 Qed.
 
-(* C17 identity: after a successful load, every name looked up from a model of the result resolves into the
-   model itself, a builtin model, or THE model registered in all_models for the target's file *)
 Theorem identity_after_load fs c f s m s' x n t i :
   Stable s -> LocReg s -> load_main fs c f s = (inr m, s') ->
   In x (included m s') -> resolve_name c s' x n = Some (t, i) ->
@@ -1418,6 +2011,79 @@ Proof.
   - apply run_hist_locreg; [apply Stable_init | apply LocReg_init].
 Qed.
 
-Lemma registered_same_file_same_model s t1 t2 :
-  dget (file_of t1 s) (allm s) = Some t1 -> dget (file_of t2 s) (allm s) = Some t2 -> file_of t1 s = file_of t2 s -> t1 = t2.
-Proof. intros H1 H2 E. rewrite E in H1. congruence. Qed.
+Theorem identity_after_load_str fs c fc s m s' x n t i :
+  Stable s -> LocReg s -> load_str fs c fc s = (inr m, s') ->
+  In x (included m s') -> resolve_name c s' x n = Some (t, i) ->
+  t = x \/ In t (cbuiltins c) \/ (dget (file_of t s') (allm s') = Some t).
+Proof.
+  intros HS HL E Hx Hr. destruct (resolve_name_in c s' x n t i Hr) as [[H|[H|H]] _]; [left; exact H | | right; left; exact H].
+  right. right. apply in_map_iff in H as [[g t'] [Ht Hin]]. cbn in Ht. subst t'.
+  assert (Hreg : dget g (allm s') = Some t).
+  { apply (load_str_ok_registered fs c fc s m s' HS HL E x g t Hin). apply In_included in Hx. exact Hx. }
+  pose proof (load_str_stable fs c fc s HS) as HS'. rewrite E in HS'. cbn in HS'.
+  destruct HS' as [_ [_ [C _]]]. destruct (C g t (dget_In _ _ _ Hreg)) as [mi [H1 H2]].
+  unfold file_of. rewrite H1, H2. exact Hreg.
+Qed.
+
+Theorem identity_in_history_str c b fs0 ops fs fc m s' x n t i :
+  let s := run_hist c fs0 (init_state b) ops in
+  load_str fs c fc s = (inr m, s') -> In x (included m s') -> resolve_name c s' x n = Some (t, i) ->
+  t = x \/ In t (cbuiltins c) \/ dget (file_of t s') (allm s') = Some t.
+Proof.
+  intros s E Hx Hr. eapply (identity_after_load_str fs c fc s m s' x n t i); try eassumption.
+  - apply run_hist_stable, Stable_init.
+  - apply run_hist_locreg; [apply Stable_init | apply LocReg_init].
+Qed.
+
+Theorem next_load_in_history c b fs0 ops s' :
+  let s := run_hist c fs0 (init_state b) ops in
+  (exists fs f e, load_main fs c f s = (inl e, s')) \/ (exists fs fc e, load_str fs c fc s = (inl e, s')) ->
+  (forall fs' f', load_main fs' c f' s' = load_main fs' c f' s) /\
+  (forall fs' fc', load_str fs' c fc' s' = load_str fs' c fc' s).
+Proof.
+  intros s H. destruct (run_hist_stable_tidy c ops fs0 (init_state b) (Stable_init b) (Tidy_init b)) as [HS HT].
+  exact (next_load_as_if_never_failed c s s' HS HT H).
+Qed.
+
+(* a string load never runs out of fuel either and opens no file twice *)
+Theorem load_str_once_raw fs c fc s :
+  K (begin_op c s) ->
+  fst (load_str_raw fs c fc s) <> inl EFuel /\ NoDup (reads (snd (load_str_raw fs c fc s))).
+Proof.
+  intro HK. unfold load_str_raw. set (s0 := begin_op c s) in *.
+  assert (Hr0 : reads s0 = []) by reflexivity.
+  destruct (fsyn fc). { cbn [fst snd]. rewrite Hr0. split; [discriminate | constructor]. }
+  set (k := anon_key fs s0). set (m := length (heap s0)). set (s2 := alloc k fc s0).
+  assert (HK2 : K s2) by exact HK.
+  assert (Hr2 : reads s2 = []) by reflexivity.
+  assert (Hld : loader_ok fs (S (length fs)) (load_file fs c (S (length fs)) false)).
+  { intros g' s' HK' Hg' Hf' Hnd' Hinc'. destruct (load_file_once fs c (S (length fs)) false g' s' HK' Hg' Hf' Hnd' Hinc') as [A [B C]].
+    split; [exact A|]. split; [exact B|]. intros m' Hm. destruct (C m' Hm) as [C1 [C2 C3]]. destruct (C3 eq_refl). auto. }
+  destruct (if (clazy c && is_nil (frefs fc))%bool then (None, s2)
+            else load_stmts (load_file fs c (S (length fs)) false) m k (fimports fc) s2) as [r s4] eqn:E4.
+  assert (Hres : r <> Some EFuel /\ NoDup (reads s4)).
+  { destruct (clazy c && is_nil (frefs fc))%bool.
+    - inversion E4; subst. split; [discriminate|]. rewrite Hr2. constructor.
+    - destruct (load_stmts_once fs _ _ _ _ _ _ _ _ Hld HK2 ltac:(lia) ltac:(rewrite Hr2; constructor)
+                  ltac:(rewrite Hr2; intros x []) E4) as [A [B _]]. split; assumption. }
+  destruct Hres as [Hnf Hnd4].
+  destruct r as [e|].
+  - cbn [fst snd]. split; [congruence | rewrite reads_handler; exact Hnd4].
+  - split; [apply fst_finish_main_nofuel | rewrite reads_finish_main; exact Hnd4].
+Qed.
+
+Theorem load_str_once fs c fc s :
+  K (begin_op c s) ->
+  fst (load_str fs c fc s) <> inl EFuel /\ NoDup (reads (snd (load_str fs c fc s))).
+Proof. intro H. unfold load_str. cbn [fst snd]. rewrite reads_tidy. apply load_str_once_raw. exact H. Qed.
+
+(* in every history (file loads, string loads, rewrites) the next load reads every file at most once *)
+Theorem once_in_history c b fs0 ops :
+  let s := run_hist c fs0 (init_state b) ops in
+  (forall fs f, fst (load_main fs c f s) <> inl EFuel /\ NoDup (reads (snd (load_main fs c f s)))) /\
+  (forall fs fc, fst (load_str fs c fc s) <> inl EFuel /\ NoDup (reads (snd (load_str fs c fc s)))).
+Proof.
+  intros s. assert (HK : K (begin_op c s)).
+  { destruct (Stable_begin_op c s (run_hist_stable c ops fs0 (init_state b) (Stable_init b))) as [A _]. exact A. }
+  split; intros; [apply load_main_once | apply load_str_once]; exact HK.
+Qed.
